@@ -162,6 +162,54 @@ PROPS["C08"] = {
     "assumptions": [],
 }
 
+CLIENT_MODELS = CRYPTO_MODELS + [
+    "std::collections::HashMap replaced (one `use` line in the scratch copy of src/message.rs and the client) by an association-list model with the same observable behaviour; the replay uses the real std HashMap",
+    "ResponseHandler is constructed directly from its five maps (what ResponseHandler::new yields for a response with these fields); its parsing unwraps are rejections and not part of the acceptance condition",
+]
+PROPS["C01"] = {
+    "functions": ["ResponseHandler::extract_time", "ResponseHandler::validate_dele", "ResponseHandler::validate_srep",
+                  "ResponseHandler::validate_merkle", "ResponseHandler::validate_midpoint", "ResponseHandler::validate_sig",
+                  "MsgVerifier::new/update/verify", "MerkleTree::root_from_paths", "Version::dele_prefix", "Version::sign_prefix"],
+    "bounds": "per harness a response layout (protocol, path depth 0 or 1): SIG, CERT.SIG (any 64 bytes each), nonce, PATH, INDX, "
+              "MIDP/RADI/MINT/MAXT (any values), ROOT (any bytes in the forged-proof harnesses) symbolic; Ed25519 verification is an "
+              "arbitrary functional predicate, SHA-512 an uninterpreted function",
+    "outside": "main(): nonce freshness per request, exit status plumbing and printing are read off the code, not executed (clap, sockets); "
+               "path depths above 1; key parsing (hex/base64); responses that fail to parse",
+    "models": CLIENT_MODELS,
+    "assumptions": ["ed25519-dalek implements RFC 8032", "ring implements SHA-512", "a panic in the client ends the process with a non-zero status and no time printed"],
+    "quick_timeout": 900,
+}
+
+PROPS["C03"] = {
+    "functions": ["ResponseHandler::extract_time and its validators", "MerkleTree::root_from_paths", "MsgVerifier::*"],
+    "bounds": "an honest reference responder written from the protocol descriptions (own keys; leaf = nonce for classic, the request "
+              "packet for IETF) answers with path depth 0 or 1 at either position; nonce, request bytes, midpoint (any u64), key seeds, "
+              "path element symbolic; the client must accept, report verified and the signed midpoint/radius",
+    "outside": "make_request's 1024-byte padding and main()'s conversion of the midpoint to seconds/nanoseconds and its printing are "
+               "not executed (inline in main behind clap and sockets); path depths 2..6; the real server as responder (C02 ties the "
+               "server to the same reference verifier)",
+    "models": CLIENT_MODELS,
+    "assumptions": ["ed25519-dalek implements RFC 8032", "ring implements SHA-512"],
+    "quick_timeout": 900,
+}
+
+PROPS["C16"] = {
+    "functions": ["FileConfig::new", "EnvironmentConfig::new", "config::is_valid_config", "ServerConfig getters"],
+    "bounds": "file source: for each of port, batch_size, status_interval, health_check_port, fault_percentage, num_workers one harness "
+              "with that value any i64 (all 2^64) and the others fixed; environment source: each documented variable name with an "
+              "in-range value",
+    "outside": "the YAML parser itself (model crate returns the parsed document), seed strings of wrong alphabet/length, unknown-key "
+               "rejection, kms_protection and client_stats/persistence_directory (string matching and file system), string-to-integer "
+               "parsing of environment values beyond the concrete values used",
+    "models": ["yaml-rust replaced by /verif/shims/yaml-model (load_from_str returns the document installed by the harness; the replay "
+               "writes a real file and uses the real parser)",
+               "File::open / read_to_string / OwnedFd drop / thread::available_parallelism stubbed; ServerConfig::udp_socket_addr stubbed to Ok "
+               "(formats and parses a socket address; not the subject)",
+               "std::env::var stubbed: returns the value the harness assigned to that exact variable name, NotPresent otherwise"],
+    "assumptions": ["str::parse::<uN> is exact or fails"],
+    "quick_timeout": 900,
+}
+
 NOT_APPLICABLE = {
     "C15": "observable is a running multi-threaded process (thread liveness, N workers binding one health-check port, poisoned mutex): Kani/CBMC has no threads, processes or sockets; a model of them would only check the model",
     "C18": "quantifies over OS schedules and SO_REUSEPORT datagram distribution across worker threads: CBMC/Kani does not handle concurrent Rust, the shared state is a lock-free crossbeam queue plus the kernel",
